@@ -454,7 +454,7 @@ pub fn run(ctx: &Ctx) -> Report {
     total.merge(rnd);
     Report {
         stats: total,
-        rule: "random operator trees over up to ~6 output actions drawn from {-print, -print0, -printf F\\n, -printf F, -fprint f, -fprint0 f, -fprintf f F, -print-file-fid, -quit} with f in {a,b,c} (so sharing and non-sharing both occur) and a few tests, executed on three files, compiled without and with a -threads option; plus chains with up to 300 distinct destinations, and pairs of destinations that a truncated fingerprint, a path normaliser or a shell would identify (hash twins, a vs ./a vs a/, ~/x vs $HOME/x, a vs A). A quarter of the trees also go through their canonical command line: it must be accepted, and when it parses to the same tree the output mode and the size of the table must equal those of the hand-built tree. Oracle: framed mode iff some action writes to a file, NUL-terminates or prints a format whose last element is not the newline escape (computed on the specification side); plain mode has no destination table; in framed mode the table is a bijection between tags and the distinct requested (destination, terminator) pairs, the stdout stream of every file parses completely into frames, every tag is a key of the table, and aligning the frames with the outputs find's rules produce, table[tag] is the producing action's (destination, terminator). Non-trivial: >=3 requested pairs or a destination shared by different terminators, with at least one output produced. Distinct: by tree.".into(),
+        rule: "random operator trees over up to ~6 output actions drawn from {-print, -print0, -printf F\\n, -printf F, -fprint f, -fprint0 f, -fprintf f F, -print-file-fid, -quit} with f in {a,b,c} (so sharing and non-sharing both occur) and a few tests, executed on three files, compiled without and with a -threads option; plus chains with up to 300 distinct destinations, and pairs of destinations that a truncated fingerprint, a path normaliser or a shell would identify (hash twins, a vs ./a vs a/, ~/x vs $HOME/x, a vs A). A quarter of the trees also go through their canonical command line: it must be accepted, and when it parses to the same tree the output mode and the size of the table must equal those of the hand-built tree. Oracle: framed mode iff some action writes to a file, NUL-terminates or prints a format whose last element is not the newline escape (computed on the specification side); plain mode has no destination table; in framed mode the table is a bijection between tags and the distinct requested (destination, terminator) pairs, the stdout stream of every file parses completely into frames, every tag is a key of the table, and aligning the frames with the outputs find's rules produce, table[tag] is the producing action's (destination, terminator). Also: interaction triples, chains nested to the left and to the right, every number 0..72 (and ~127, ~255) of distinct matchers before the printers, tens of thousands of them (printer numbers around 0xD800, with either parity; quick tier: program and table inspected, thorough: executed), requests that a concatenated key would confuse, escape twins, names that agree in their first 64..65536 bytes, the trees of the policy fuzz corpus. Non-trivial: >=3 requested pairs or a destination shared by different terminators, with at least one output produced. Distinct: by tree.".into(),
         assumptions: crate::checks::c02::runtime_assumptions(),
         exhaustive: false,
     }
